@@ -242,10 +242,11 @@ class StingyConfigurator(pg.All):
                 out : :class:`puan.ndarray.ge_polyhedron_config`
         """
         # The polyhedron is kept on this instance only, together with the
-        # text form of the model it was created from. A cache shared between
+        # text form and the default prios of the model it was created from
+        # (the text form does not show the defaults). A cache shared between
         # instances would be keyed on __hash__/__eq__, which do not tell apart
         # all configurators.
-        key = self.to_text()
+        key = (self.to_text(), tuple(self.default_prios.items()))
         memo = self.__dict__.get("_ge_polyhedron_memo", None)
         if memo is None or memo[0] != key:
             ge_polyhedron = self.to_ge_polyhedron(True)
